@@ -282,6 +282,10 @@ pub fn run(seed: u64, count: usize, outdir: &str) -> std::io::Result<i32> {
                     let d = (0..3).map(|k| (l.1[k] as f64 - w[k]).max(w[k] - l.2[k] as f64).max(0.0)).fold(0.0, f64::max) / size;
                     if d > worst.0 { worst = (d, l.0); } }
                 worst };
+            // every cell vertex lies within one cell size of its own leaf (QefBound.leaf_vertex_within_one_cell_size; collapsed cells
+            // keep a vertex only inside the cell).  1.001: the positions come back through the inverse of the f32 transform
+            if escape.0 > 1.001 && rep.problems.iter().all(|p| !p.starts_with("kind=non-finite")) {
+                bad.push(format!("kind=vertex-outside-expanded-cell backend={name} a vertex lies {:.2} cell sizes outside its own leaf (leaf depth {})", escape.0, escape.1)); }
             // the recorded finding qef-vertex-escapes-cell: QuadraticErrorSolver::solve does not keep its solution inside the cell; for
             // features of about a cell the vertex lands cells away and the local volume / orientation is wrong
             if escape.0 > 1.0 { for b in bad[vol_start..].iter_mut() { for k in ["kind=negative-volume", "kind=volume-mismatch", "kind=inward-winding"] {
